@@ -88,6 +88,14 @@ def py_tok_eq(a, b):
 
 
 LITKINDS = set()
+ARGKINDS = set()   # token kinds the parser's key generator accepts as a (one-token) argument of a placeholder
+
+
+def py_match(q, ck):
+    """does the call token q fit the pattern token ck? placeholders stand for any argument token"""
+    if ck["kind"] in ("P", "PN") and q["kind"] == "T" and q["tt"] in ARGKINDS:
+        return True
+    return py_tok_eq(ck, q)
 
 
 def vocab_lines(toks, ranks=None):
@@ -181,11 +189,16 @@ def spec_run(toks, hist, stats=None):
             f = find(store, ks)
             out.append("F -" if f is None else "F %d" % f)
         else:
-            # every bound non-empty prefix of the query, as a multiset
+            # every bound non-empty pattern that a prefix of the call instantiates, as a multiset
             vals = []
             for k0, v in store:
-                if 0 < len(k0) <= len(ks) and all(py_tok_eq(x, y) for x, y in zip(k0, ks[:len(k0)])):
+                if 0 < len(k0) <= len(ks) and all(py_match(y, x) for x, y in zip(k0, ks[:len(k0)])):
                     vals.append(v)
+            if stats is not None:
+                if any(x["kind"] != "T" and y["kind"] == "T" for k0, v in store if 0 < len(k0) <= len(ks) and all(py_match(y, x) for x, y in zip(k0, ks[:len(k0)])) for x, y in zip(k0, ks)):
+                    stats["searches_matching_a_placeholder_by_an_argument"] = stats.get("searches_matching_a_placeholder_by_an_argument", 0) + 1
+                if len(vals) >= 2:
+                    stats["searches_returning_several_aliases"] = stats.get("searches_returning_several_aliases", 0) + 1
             out.append(("M", sorted(vals)))
     return out
 
@@ -271,6 +284,24 @@ def gen_histories(ck, toks, n_random):
                 h.append(("L", [T[2], c]))
                 h.append(("L", [T[2], a]))
                 hists.append(h)
+    # exhaustive small, calls: after a common prefix one alias has a literal word and others a placeholder at the same
+    # position (then different tails); every declaration order; calls whose argument at that position is that very
+    # word, another identifier, a number/string/symbol or a non-argument token: Search must return exactly the aliases
+    # the call instantiates - a literal sibling that matches must not hide the placeholder siblings nor vice versa.
+    words = [T[0], T[1], T[4], T[5]]          # a, b, !, 1  (IDENTIFIER sorts before, SYMBOL/INT after ALIAS_PARAMETER)
+    phs = [vals[0], vals[2], alike[0]] if len(vals) > 2 else vals[:1]
+    for w in words:
+        for ph1 in phs:
+            for ph2 in (None, [p for p in phs if p != ph1][0]):
+                decls = [[T[2], w, T[1]], [T[2], ph1, T[4]], [T[2], w], [T[2], ph1]]
+                if ph2 is not None:
+                    decls = decls[:3] + [[T[2], ph2, T[4], T[0]]]
+                for perm in itertools.permutations(range(len(decls))):
+                    h = [("D", i + 1, decls[i]) for i in perm]
+                    for arg in (w, T[0], T[5], T[7], T[8]):
+                        for tail in ([T[4]], [T[1]], [T[4], T[0]], []):
+                            h.append(("S", [T[2], arg] + tail))
+                    hists.append(h)
     # exhaustive small, forks: every insertion order of every 3-subset of the print-alike pool; then a fork (what
     # generateGenericContext + the parse of the instantiated body do on the copy) that Puts, on keys of the original,
     # an equal key / a print-alike but different key / a strict prefix / an extension, and Declares new keys; then,
@@ -308,6 +339,16 @@ def gen_histories(ck, toks, n_random):
                       ("L", [T[2], c]), ("L", [T[2], a]), ("L", [T[2]]), ("D", 99, [T[2], c]), ("S", [T[2], a])]
                 hists.append(h)
     n_exh = len(hists)
+    def call_of(k):
+        """a call of pattern k: placeholders mostly replaced by argument tokens (preferring words that occur
+        literally in the key pool, so that literal siblings match too)"""
+        out = []
+        for i in k:
+            if toks[i]["kind"] != "T" and rng.random() < 0.8:
+                out.append(rng.choice(T[:8]))
+            else:
+                out.append(i)
+        return out
     # random structured histories, with forks (nested up to depth 3), Puts inside and after-fork observations
     for _ in range(n_random):
         h = []
@@ -333,7 +374,7 @@ def gen_histories(ck, toks, n_random):
                 elif r < 0.68:
                     h.append(("L", k))
                 elif r < 0.80:
-                    h.append(("S", k + [rng.choice(P + T) for _ in range(rng.randint(0, 2))]))
+                    h.append(("S", call_of(k) + [rng.choice(P + T) for _ in range(rng.randint(0, 2))]))
                 elif r < 0.83:
                     h.append(("P", val, k)); val += 1
                 else:
@@ -346,7 +387,7 @@ def gen_histories(ck, toks, n_random):
                 elif r < 0.68:
                     h.append(("L", k))
                 elif r < 0.76:
-                    h.append(("S", k + [rng.choice(P + T) for _ in range(rng.randint(0, 2))]))
+                    h.append(("S", call_of(k) + [rng.choice(P + T) for _ in range(rng.randint(0, 2))]))
                 elif r < 0.82 and depth < 3:
                     h.append(("Y",)); depth += 1
                 else:
@@ -359,7 +400,7 @@ def gen_histories(ck, toks, n_random):
                 h.append(("L", k))
             for k in ks[:2]:
                 h.append(("D", val, k)); val += 1
-            h.append(("S", ks[0] + [rng.choice(P + T)]))
+            h.append(("S", call_of(ks[0]) + [rng.choice(P + T)]))
         hists.append(h)
     return hists, n_exh
 
@@ -520,8 +561,9 @@ def main():
     if not os.path.exists(model) or tt is None:
         ck.broken_obligation("extracted model driver missing (make setup)", "")
         ck.finish()
-    global LITKINDS
+    global LITKINDS, ARGKINDS
     LITKINDS = {tt[k] for k in ("IDENTIFIER", "SYMBOL", "INT", "FLOAT", "CHAR", "STRING")}
+    ARGKINDS = {tt[k] for k in ("INT", "FLOAT", "TRUE", "FALSE", "CHAR", "STRING", "IDENTIFIER", "SYMBOL")}
     toks = make_vocab(tt)
 
     # 1. key predicates on the whole vocabulary (exhaustive pairs): implementation vs model vs property
@@ -601,7 +643,7 @@ def main():
     ck.cov.update(dict(
         histories=len(hists), exhaustive_permutation_histories=n_exh, operations=ops_total, op_kinds=kinds, rejected_declarations=rejected,
         op_kinds_legend="D declare (Contains, then Insert) / L lookup / S search / P put = Insert without Contains (line letter U) / Y fork begin = Copy / Z fork end = back to the original",
-        histories_with_forks=fork_hists, fork_coverage=fork_stats,
+        histories_with_forks=fork_hists, scenario_coverage=fork_stats,
         vocabulary=len(toks), predicate_pairs=n * n, exhaustive=False, histories_contradicting_spec=n_bad_hist,
         rule="histories of Declare/Lookup/Search/Put/Fork(copy, inner history, back to the original; nested) over %d tokens (placeholders of 23 types x value/Referenz incl. three Kombinationen printed 'Punkt', aliases, definitions, lists); "
              "non-trivial = at least two distinct declared/put keys or a rejected duplicate; distinct by operation sequence; all insertion orders of every %d-subset of the print-alike pool enumerated, "
